@@ -251,6 +251,81 @@ func TestVerif_C09(t *testing.T) {
 			}
 		}
 	}
+	// ---- (b2) the list as CONFIGURED, through every way of configuring it ----
+	// The oracle reads the option the administrator wrote, not what the server stored: a non-empty
+	// list admits its members only (nobody at all when no entry is well-formed).
+	cfgLists := [][]string{{"192.168.10.0/33"}, {"host.example.com", "192.168.1.*"}, {""}, {"bogus", "10.0.0.0/24"}, {"10.0.0.9"}, {"10.0.0.9/32", "nonsense/8"}, {"::ffff:10.0.0.9"}, {"2001:db8::7"}}
+	cfgClients := []string{"10.0.0.9", "10.0.1.9", "::ffff:10.0.0.9", "2001:db8::7", "2001:db8::8", "192.168.10.1", "127.0.0.1"}
+	for _, l := range cfgLists {
+		for _, via := range []string{"New", "UpdateExportOptions", "UpdatePolicyOptions"} {
+			fs2 := refs.New()
+			fs2.PlantFile("/f", []byte("x"), 0644, 0, 0)
+			o := ExportOptions{AttrCacheTimeout: 1}
+			if via == "New" {
+				o.AllowedIPs = append([]string(nil), l...)
+			}
+			s2, err := vfNewSrv(fs2, o)
+			if err != nil {
+				rec.Distinct("cfg|" + via + "|refused")
+				continue // a configuration the server refuses outright is outside the property
+			}
+			var cerr error
+			switch via {
+			case "UpdateExportOptions":
+				eo := s2.nfs.GetExportOptions()
+				eo.AllowedIPs = append([]string(nil), l...)
+				cerr = s2.nfs.UpdateExportOptions(eo)
+			case "UpdatePolicyOptions":
+				q := *s2.nfs.policy.Load()
+				q.AllowedIPs = append([]string(nil), l...)
+				cerr = s2.nfs.UpdatePolicyOptions(q)
+			}
+			if cerr != nil {
+				rec.Distinct("cfg|" + via + "|refused")
+				s2.Close()
+				continue
+			}
+			c2 := s2.client()
+			for _, cl := range cfgClients {
+				want, dec := vfIPAllowed(cl, l)
+				if !dec {
+					continue
+				}
+				c2.IP, c2.Port = cl, 700
+				lo := fs2.LogLen()
+				rec.Eval(1)
+				_, raw, err := c2.rawCall(vfProgMount, 3, 1, (&xdrw.W{}).Str("/").B)
+				if err != nil {
+					continue
+				}
+				rep, derr := rfc.DecodeReply(raw)
+				if derr != nil {
+					continue
+				}
+				connOK := s2.srv.isIPAllowed(cl)
+				desc := map[string]any{"allowed_ips_as_configured": l, "configured_via": via, "client": cl}
+				if !want && (!rep.Denied || fs2.LogLen() != lo) {
+					rec.Violate("C09/client-outside-configured-list-served/via="+via, fmt.Sprintf("AllowedIPs=%q configured through %s: MNT from %s denied=%v, %d backend calls", l, via, cl, rep.Denied, fs2.LogLen()-lo), desc)
+				}
+				if !want && connOK {
+					rec.Violate("C09/client-outside-configured-list-passes-connection-filter/via="+via, fmt.Sprintf("AllowedIPs=%q configured through %s: the connection-level filter admits %s", l, via, cl), desc)
+				}
+				if want && (rep.Denied || !connOK) {
+					rec.Violate("C09/listed-client-denied/via="+via, fmt.Sprintf("AllowedIPs=%q configured through %s: %s denied (request denied=%v, connection filter=%v)", l, via, cl, rep.Denied, connOK), desc)
+				}
+				wf := 0
+				for _, e := range l {
+					if _, err := netip.ParseAddr(e); err == nil {
+						wf++
+					} else if _, err := netip.ParsePrefix(e); err == nil {
+						wf++
+					}
+				}
+				rec.Distinct(fmt.Sprintf("cfg|%s|entries=%d|well-formed=%d|member=%v|denied=%v", via, len(l), wf, want, rep.Denied))
+			}
+			s2.Close()
+		}
+	}
 	// ---- (c) connection level over real TCP ----
 	p := *srv.nfs.policy.Load()
 	p.AllowedIPs, p.Secure = []string{"127.0.0.2", "127.0.0.8/30"}, false
